@@ -245,6 +245,39 @@ func genC15(c *Ctx) {
 			}
 		}
 	}
+	// rounding helpers and IsPowerOfTwo near every power of two up to 2^62 (beyond, RoundUpPowerOfTwo does
+	// not terminate, section 7 of DESIGN.md), and at the negative side
+	for e := 1; e <= 62; e++ {
+		for d := -1; d <= 1; d++ {
+			n := (1 << uint(e)) + d
+			if n > 1<<62 {
+				continue
+			}
+			c.add("rup", s(n))
+			c.add("rdown", s(n))
+			c.add("ispow2", s(n))
+			c.add("ispow2", s(-n))
+		}
+	}
+	// RoundUpByMultipleOf on arbitrary cursors and multiples; BlobSharesUsed with zero lengths / no blobs
+	for i := 0; i < 300; i++ {
+		cur := int(r.U64() % (1 << uint(1+r.Intn(40))))
+		v := 1 + int(r.U64()%uint64(1+r.Intn(5000)))
+		c.add("rumo", s(cur), s(v))
+		got := inclusion.RoundUpByMultipleOf(cur, v)
+		c.check(got >= cur && got%v == 0 && got-cur < v, "RoundUpByMultipleOf", "not the least multiple of v at or after the cursor", map[string]any{"cursor": cur, "v": v})
+	}
+	c.add("bsu", "7", "3", "")
+	c.add("bsu", "7", "3", "0")
+	c.add("bsu", "5", "64", "0,0,3,0")
+	// MerkleMountainRangeSizes with maximal tree sizes that are NOT powers of two (the function does not
+	// require one) and totals up to 2^40
+	for i := 0; i < 200; i++ {
+		total := int(r.U64() % (1 << uint(1+r.Intn(40))))
+		w := 1 + int(r.U64()%uint64(1+r.Intn(300)))
+		w += total / 1500 // at most ~1500 maximal trees in the result
+		c.add("mmr", s(total), s(w))
+	}
 	// MerkleMountainRangeSizes called directly: every total 1..70 against every power-of-two maximal tree size
 	// 1..128, so also totals BELOW the maximum (which the commitment code never passes: the width is <= n)
 	for total := 1; total <= 70; total++ {
@@ -366,6 +399,13 @@ func genC13(c *Ctx) {
 			c.check(share.CompactSharesNeeded(uint32(a)) == n && share.CompactSharesNeeded(uint32(a+1)) == n+1, "AvailableBytesFromCompactShares", "n shares do not hold exactly that many bytes", map[string]any{"n": n})
 			b := share.AvailableBytesFromSparseShares(n)
 			c.check(share.SparseSharesNeeded(uint32(b)) == n && share.SparseSharesNeeded(uint32(b+1)) == n+1, "AvailableBytesFromSparseShares", "n shares do not hold exactly that many bytes", map[string]any{"n": n})
+		}
+	}
+	for e := 9; e <= 53; e += 4 {
+		for d := -1; d <= 1; d++ {
+			c.add("cavail", s((1<<uint(e))+d))
+			c.add("savail", s((1<<uint(e))+d))
+			c.add("cavail", s(-(1<<uint(e))+d))
 		}
 	}
 	for _, n := range []int{0, 1, 127, 128, 16383, 16384, 2097151, 2097152, 1 << 28, 1<<28 - 1, 1 << 35, 1<<62 - 1} {
